@@ -87,11 +87,15 @@ def load(project, tdir, what, with_rates=False, with_physics=False, extra=(), li
         L = H.Loaded(project, tdir, ir_paths=paths)
         L.errors = errors
     elif lift:
-        paths, errors, table = [], {}, {}
+        paths, errors = [], {}
         main_tu = _tus_for(kind, what)[0]
+        if not hasattr(project, "_lit"):
+            project._lit = {}
+        table = project._lit.setdefault((tdir, main_tu), {})
+        fresh = not table
         for tu in tus:
             if tu == main_tu:
-                ll, err = project.compile_ir(tdir, tu, pre=lambda t: lift_literals(t, table), tag="lift")
+                ll, err = project.compile_ir(tdir, tu, pre=(lambda t: lift_literals(t, table)) if fresh else (lambda t: t), tag="lift")
                 if ll is None:
                     # report the diagnostics of the *unmodified* emitted source
                     ll0, err0 = project.compile_ir(tdir, tu)
